@@ -5,6 +5,7 @@ import BioscrapeModel.Model.Priors
 import BioscrapeModel.Model.Inference
 import BioscrapeModel.Model.Sensitivity
 import BioscrapeModel.Model.Deterministic
+import BioscrapeModel.Model.Expr
 
 /-
 `modeldriver`: one JSON job per input line, one JSON answer per output line
@@ -378,6 +379,32 @@ def jobRhs (j : Json) : Except String Json := do
     return Json.mkObj [("dx", encList r.1), ("x", encList r.2.1), ("p", encList r.2.2)])
   return Json.mkObj [("points", Json.arr outs.toArray)]
 
+/-- a written formula: parse it, translate it against the model's names, evaluate the tree and the meaning. -/
+def jobFormula (j : Json) : Except String Json := do
+  let src ← getStrField j "src"
+  let species ← getStrList j "species"
+  let params ← getStrList j "params"
+  let x := vecFn (← getNumList (α := α) j "x")
+  let p := vecFn (← getNumList (α := α) j "p")
+  let V : α ← getNum j "V"
+  let t : α ← getNum j "t"
+  match parseFormula (α := α) src with
+  | .error e => return Json.mkObj [("parse", "error"), ("msg", e)]
+  | .ok e =>
+    let env (vol : α) : Env α := fun name =>
+      let nm := lookupName species params name
+      match species.idxOf? nm with
+      | some i => some (x i)
+      | none => match params.idxOf? nm with
+        | some i => some (p i)
+        | none => if nm = "volume" then some vol else if nm = "t" then some t else none
+    let meaning := match Expr.eval (env V) e with | some v => Codec.enc v | none => Json.null
+    match translate species params e with
+    | .error m => return Json.mkObj [("parse", "ok"), ("translate", "error"), ("msg", m), ("meaning", meaning)]
+    | .ok tr =>
+      return Json.mkObj [("parse", "ok"), ("translate", "ok"), ("eval", Codec.enc (tr.eval x p t)),
+        ("voleval", Codec.enc (tr.volEval x p V t)), ("meaning", meaning)]
+
 def dispatch (op : String) (j : Json) : Except String Json :=
   match op with
   | "prop" => jobProp (α := α) j
@@ -392,6 +419,7 @@ def dispatch (op : String) (j : Json) : Except String Json :=
   | "infer" => jobInfer (α := α) j
   | "sens" => jobSens (α := α) j
   | "rhs" => jobRhs (α := α) j
+  | "formula" => jobFormula (α := α) j
   | _ => throw s!"unknown op {op}"
 end
 
